@@ -257,7 +257,7 @@ func c03Run(cs c03Case, viaSet bool) (cls, sig, text string) {
 func c03(c *core.Ctx) {
 	c.SetLevel("model_checking")
 	c.Budget(80*time.Second, 12*time.Minute)
-	c.SetRule("histories of 1-2 (quick) / 1-3 (thorough) frames over an alphabet of valid frames of every kind, Treads whose count exceeds msize-11, frames oversize by k, unknown types, bodies cut at every length, length prefixes 0-3; msize in {24,32,64,256}; byte stream delivered all at once, one byte per Read, and with every placement of 1 (quick) / 2 (thorough) cuts for class representatives; stream ending after every byte of the last frame. Each ReadFcall is compared with a reference frame parser whose verdict depends on the frame's bytes and msize only (so frame isolation is part of the oracle). outcome = per-history string of verdict classes")
+	c.SetRule("histories of 1-2 (quick) / 1-3 (thorough) frames over an alphabet of valid frames of every kind, Treads whose count exceeds msize-11, frames oversize by k, unknown types, bodies cut at every length, length prefixes 0-3; msize in {24,32,64,256} (and, for the class representatives delivered at once and in 1000-byte chunks, {4096,4097,8192,65536}); byte stream delivered all at once, one byte per Read, and with every placement of 1 (quick) / 2 (thorough) cuts for class representatives; stream ending after every byte of the last frame. Each ReadFcall is compared with a reference frame parser whose verdict depends on the frame's bytes and msize only (so frame isolation is part of the oracle). outcome = per-history string of verdict classes")
 	c.Assume("reference parser + refcodec are the specification", "after a length prefix below 4 nothing further is asserted about the stream")
 	msizes := []int{24, 32, 64, 256}
 	var mu sync.Mutex
@@ -377,6 +377,41 @@ func c03(c *core.Ctx) {
 		if c.Expired() {
 			break
 		}
+	}
+	// large msize values (buffers that may be sized or grown lazily): class
+	// representatives, histories of 1-2 frames, delivered at once and in
+	// chunks of 1000 bytes
+	for _, m := range []int{4096, 4097, 8192, 65536} {
+		if c.Expired() {
+			break
+		}
+		alpha := c03Alphabet(m, false)
+		var reps []c03Frame
+		seen := map[string]int{}
+		for _, f := range alpha {
+			if seen[f.Class] < 2 {
+				seen[f.Class]++
+				reps = append(reps, f)
+			}
+		}
+		var cases []c03Case
+		for _, a := range reps {
+			cases = append(cases, c03Case{m: m, frames: []c03Frame{a}, endAt: -1})
+			for _, b := range reps {
+				h := []c03Frame{a, b}
+				cases = append(cases, c03Case{m: m, frames: h, endAt: -1})
+				n := len(a.Bytes) + len(b.Bytes)
+				var cuts []int
+				for at := 1000; at < n; at += 1000 {
+					cuts = append(cuts, at)
+				}
+				if len(cuts) > 0 {
+					cases = append(cases, c03Case{m: m, frames: h, cuts: cuts, endAt: -1})
+				}
+			}
+		}
+		run(cases)
+		c.Set(fmt.Sprintf("alphabet_size_msize_%d", m), len(reps))
 	}
 	c.Count(total, int64(len(classes)), total, total)
 	for k, v := range classes {
